@@ -335,7 +335,10 @@ class HTTP2Connection(ConnectionInterface):
         return event
 
     def _receive_events(
-        self, request: Request, stream_id: int | None = None
+        self,
+        request: Request,
+        stream_id: int | None = None,
+        flow_stream_id: int | None = None,
     ) -> None:
         """
         Read some data from the network until we see one or more events
@@ -348,6 +351,11 @@ class HTTP2Connection(ConnectionInterface):
                     self._request_count -= 1
                     raise ConnectionNotAvailable()
                 raise RemoteProtocolError(self._connection_terminated)
+
+            # When waiting for flow control, another stream holding the read lock
+            # may already have processed the window update we were waiting for.
+            if flow_stream_id is not None and self._outgoing_flow(flow_stream_id) > 0:
+                return
 
             # This conditional is a bit icky. We don't want to block reading if we've
             # actually got an event to return for a given stream. We need to do that
@@ -487,15 +495,16 @@ class HTTP2Connection(ConnectionInterface):
         WindowUpdated frames have increased the flow rate.
         https://tools.ietf.org/html/rfc7540#section-6.9
         """
+        flow = self._outgoing_flow(stream_id)
+        while flow == 0:
+            self._receive_events(request, flow_stream_id=stream_id)
+            flow = self._outgoing_flow(stream_id)
+        return flow
+
+    def _outgoing_flow(self, stream_id: int) -> int:
         local_flow: int = self._h2_state.local_flow_control_window(stream_id)
         max_frame_size: int = self._h2_state.max_outbound_frame_size
-        flow = min(local_flow, max_frame_size)
-        while flow == 0:
-            self._receive_events(request)
-            local_flow = self._h2_state.local_flow_control_window(stream_id)
-            max_frame_size = self._h2_state.max_outbound_frame_size
-            flow = min(local_flow, max_frame_size)
-        return flow
+        return min(local_flow, max_frame_size)
 
     # Interface for connection pooling...
 
